@@ -28,10 +28,11 @@ const (
 	kHas
 	kSet
 	kDelete
+	kOpen // opening a bucket of the underlying store (only reported through openHook)
 )
 
 func (k accessKind) String() string {
-	return [...]string{"get", "has", "set", "del"}[k]
+	return [...]string{"get", "has", "set", "del", "open"}[k]
 }
 
 func (k accessKind) isWrite() bool { return k == kSet || k == kDelete }
@@ -53,6 +54,9 @@ type simStore struct {
 	// reserved for writes). Returning an error makes the access fail without
 	// touching the store. It may also park the calling task (token scheduler).
 	hook func(kind accessKind, bucket db.BucketID, key []byte) error
+	// openHook is consulted when a bucket of the underlying store is opened (a backend may do I/O
+	// there); only the concurrent C19 engine sets it, to park the calling task.
+	openHook func(bucket db.BucketID) error
 	// counters of the current operation window (reset by the engine)
 	gets, sets       int
 	getErrs, setErrs int
@@ -96,6 +100,11 @@ func (s *simStore) open() *simDB {
 }
 
 func (d *simDB) GetBucket(id db.BucketID) (db.Bucket, error) {
+	if h := d.store.openHook; h != nil {
+		if err := h(id); err != nil { // may park the calling task
+			return nil, err
+		}
+	}
 	if b, ok := d.buckets[id]; ok {
 		return b, nil
 	}
